@@ -15,7 +15,7 @@ ASSUME DistinfoLiteralsOK /\ DigestLiteralsOK
 
 H1 == <<97, 98, 99, 49>>    H2 == <<48, 48, 102, 102>>    \* "abc1" "00ff"
 DistNames  == { <<102>>, <<115, 117, 98, 47, 102>>, <<110, 195, 160>>, <<110, 195, 133>>, <<110, 233>>,
-                <<103, 46, 116, 97, 114, 46, 103, 122>>, Codes("patch-2.7.tar.gz"), Codes("foo.patch-1") }
+                <<103, 46, 116, 97, 114, 46, 103, 122>>, Codes("patch-2.7.tar.gz"), Codes("foo.patch-1"), Codes("emul-x-patch-b.tar.gz") }
 PatchNames == { Codes("patch-a"), Codes("emul-x-patch-b"), <<112, 97, 116, 99, 104, 45, 233>>, Codes("sub/patch-c") }
 Sizes == { <<>>, <<55>>, Codes("18446744073709551615") }        \* 0, 7, u64::MAX (normalised digits)
 RcsLines == { <<>>, LitRcs \o Codes("distinfo,v 1.1 $"), LitRcs \o <<233, 32, 160, 36, 32>> }
@@ -29,7 +29,7 @@ LineKinds == { Ln(Codes("SHA1"), <<102>>, H1), Ln(Codes("RMD160"), <<102>>, H2),
                Ln(Codes("SHA1"), Codes("patch-a"), H1), Ln(Codes("MD5"), Codes("emul-x-patch-b"), H2),
                Ln(Codes("SHA1"), Codes("patch-local-c"), H1), Ln(Codes("SHA1"), Codes("patch-d.orig"), H1),
                Ln(Codes("SHA1"), Codes("patch-e.rej"), H2), Ln(Codes("SHA1"), Codes("patch-f~"), H1),
-               Ln(Codes("SHA1"), Codes("foo.patch-1"), H1), Ln(Codes("BLAKE2s"), <<110, 195, 160>>, H2),
+               Ln(Codes("SHA1"), Codes("foo.patch-1"), H1), Ln(Codes("MD5"), Codes("emul-x-patch-b.tar.gz"), H2), Ln(Codes("BLAKE2s"), <<110, 195, 160>>, H2),
                <<SP, TAB>> \o Ln(Codes("SHA256"), <<102>>, H2), Codes("SHA1") \o <<SP, SP, TAB, LPAR, 102, RPAR, SP, SP, SP, EQ, TAB>> \o H2,
                Codes("# comment"), <<>>, <<SP, SP>>, Ln(Codes("SHA3"), <<102>>, H1), SzLn(<<102>>, Codes("1x")),
                SzLn(<<102>>, Codes("18446744073709551616")), Codes("SHA1 f = abc1"), Codes("garbage line here ok"),
